@@ -866,6 +866,12 @@ ASSUMPTIONS = [
     "REDUCED is only required to have the same SET of solutions as DISTINCT (its cardinalities are implementation-defined and order-dependent in rdflib)",
     "ReadOnlyGraphAggregate is exercised with disjoint member graphs and without property paths (finding F16 concerns paths, model of C11)",
     "SELECT [DISTINCT] * queries only; the vocabulary of C04",
+    "store independence is PROVED for the model parametrised by the store's enumeration function (C15_store_independent_partial: any two "
+    "enumerations that hand out the matching triples of every pattern each once, every operator except OFFSET) and the hypothesis is proved "
+    "for the Memory and SimpleMemory models of C01 (C15_enum_memory, C15_enum_simple; the auditable wrapper through C18_over_memory_refines, "
+    "by comment); that rdflib's evaluator reaches the store only through Graph.triples is the reading of evaluate.evalBGP, and the aggregate "
+    "is the bag union of its members (C15_enum_aggregate) = the same data only for disjoint members, which is what the suite builds; "
+    "the five real back ends are still exercised by the runs of suite same_query",
     "the tie C15_main_partial covers groups of rewritings that keep the variable names (BGP permutation, UNION swap, join swap, the last two "
     "of a join chain swapped; at any depth outside expressions) when base and variant lie in the proved C04 fragment over data without boolean "
     "literals; suite tie_share measures the share; renaming, prefixes, back ends, prepared objects, initBindings: runs only",
